@@ -332,7 +332,9 @@ def parseSettings (s : String) : Option PortSettings :=
     pure ⟨← parseBaud b, ← charSizes[← c.toNat?]?, ← parities[← p.toNat?]?, ← stops[← st.toNat?]?, ← flows[← f.toNat?]?⟩
   | _ => none
 
-def parseFail (s : String) : Option FailAt :=
+def parseFail (s0 : String) : Option FailAt :=
+  -- an optional `:k` suffix names the kind of error the refusing call returns; the outcome does not depend on it
+  let s := (s0.splitOn ":").headD s0
   if s == "never" then some .never else if s == "read" then some .readSettings
   else if s == "baud" then some .setBaud else if s == "write" then some .writeSettings
   else if s == "timeout" then some .setTimeout else none
